@@ -494,12 +494,21 @@ def rule_scope_guard(tk, F, guards):
                 j += 1
             rest = out[e + 2:end]; new = []; k = 0
             while k < len(rest):
-                if str(rest[k]) == 'goto': raise Drift("GUARD: goto out of a guarded scope not supported")
+                if str(rest[k]) == 'goto':
+                    tgt = str(rest[k + 1])
+                    inside = any(str(rest[z]) == tgt and str(rest[z + 1]) == ':' for z in range(len(rest) - 1))
+                    if not inside: raise Drift("GUARD: goto out of a guarded scope not supported")
                 if str(rest[k]) == 'return':
                     q = k
                     while str(rest[q]) != ';': q += 1
-                    if any(str(x) == '(' for x in rest[k + 1:q]): raise Drift("GUARD: return of a call expression inside a guarded scope not supported")
-                    new += [T('{', L)] + dt + rest[k:q + 1] + [T('}', L)]; k = q + 1; continue
+                    expr = rest[k + 1:q]
+                    if any(str(x) == '(' for x in expr):
+                        # C++ evaluates the returned expression BEFORE the destructors run:  { T __g = expr; dtor; return __g; }
+                        nn = '__guard_ret%d' % len(new)
+                        new += [T(x, L) for x in ('{', '__typeof__', '(')] + list(expr) + [T(x, L) for x in (')', nn, '=')] + list(expr) + [T(';', L)] + dt + [T(x, L) for x in ('return', nn, ';', '}')]
+                    else:
+                        new += [T('{', L)] + dt + rest[k:q + 1] + [T('}', L)]
+                    k = q + 1; continue
                 new.append(rest[k]); k += 1
             out = out[:i] + new + dt + out[end:]
             F.hit('GUARD'); continue
